@@ -1,5 +1,5 @@
 ---------------------------- MODULE prog_tenin ----------------------------
-(* C18 lens: Tensor constants WITH named integer inputs (accepted by compile_funsor; outside the lowering model's fragment) *)
+(* C18 lens: Tensor constants WITH named integer inputs (accepted by compile_funsor although outside the fragment the lowering model defines: known finding) *)
 EXTENDS OpProgram
 L_Leaves == <<
   TenS(<< <<"i", 2>> >>, <<>>, 0, <<Q(1, 1), Q(5, 1)>>),
